@@ -427,7 +427,7 @@ func (w *ViewWorld) Canon() string {
 			aLast = cl.LastCas
 		}
 	}
-	cas = append(cas, aLast)
+	cas = append(cas, aLast, d.BucketLastCas) // the bucket-wide mark moves with writes to other collections
 	for _, r := range d.Docs {
 		if r.Collection == "sc.A" {
 			cas = append(cas, r.Cas)
@@ -451,7 +451,7 @@ func (w *ViewWorld) Canon() string {
 			fmt.Fprintf(&b, "%s:%q/%v/%v x=%q cas#%d;", r.Key, r.Value, r.HasValue, r.IsJSON, r.Xattrs, rank[r.Cas])
 		}
 	}
-	fmt.Fprintf(&b, "last#%d|", rank[aLast])
+	fmt.Fprintf(&b, "last#%d bucket#%d|", rank[aLast], rank[d.BucketLastCas])
 	for _, v := range d.Views {
 		if v.Collection == "sc.A" {
 			fmt.Fprintf(&b, "%s/%s:%d#%d:%v;", v.DDoc, v.View, len(v.MapFn), rank[v.LastCas], v.Mapped)
